@@ -57,13 +57,15 @@ def check_col(prog: Program, res: Result) -> None:
             cur = cur.value
         col = idx[-1] if idx else None
         loops = astq.enclosing_loops(st)
-        col_loop = [l for l in loops if isinstance(l, ast.For) and col is not None and norm(l.target) == norm(col)]
-        ok = bool(col_loop) and astq.xnorm(gs.node, col_loop[0].iter) == "self.candidate.current_tracks"
+        vloops = astq.virtual_loops(st)
+        col_loop = [(t_, it_) for t_, it_, _ in vloops if col is not None and norm(t_) == norm(col)]
+        ok = bool(col_loop) and astq.xnorm(gs.node, col_loop[0][1]) == "self.candidate.current_tracks"
         res.ob("C10-col", ok, gs.qualname, f"column index `{short(col, 20) if col is not None else '?'}` ranges over the track ids",
                f"the column index of `{short(t, 40)}` does not range over self.candidate.current_tracks", f"{gs.module.relpath}:{st.lineno}")
         row = idx[0] if len(idx) == 2 else None
-        row_loop = [l for l in loops if isinstance(l, ast.For) and row is not None and row.id in astq.target_names(l.target)] if isinstance(row, ast.Name) else []
-        res.ob("C10-col", bool(row_loop) and norm(row_loop[0].iter).startswith("enumerate("), gs.qualname, "row index enumerates the detections",
+        row_loop = [(t_, it_) for t_, it_, _ in vloops if isinstance(row, ast.Name) and row.id in astq.target_names(t_)]
+        res.ob("C10-col", bool(row_loop) and norm(row_loop[0][1]).startswith("enumerate(") and isinstance(row_loop[0][0], ast.Tuple) and norm(row_loop[0][0].elts[0]) == norm(row),
+               gs.qualname, "row index enumerates the detections",
                "the row index does not enumerate the current detections", f"{gs.module.relpath}:{st.lineno}")
         # the features scored against are those of that very track
         reads = [n for n in ast.walk(loops[0]) if isinstance(n, ast.Subscript) and norm(n.value) == "candidates_feature_dict"] if loops else []
